@@ -100,9 +100,13 @@ def handshake (first : Bytes) : Option Conn :=
     match f.body with
     | .settings s =>
       if s.ack then some {}
-      else some { streamWindow := s.windowSize, maxStreams := s.maxStreams, maxFrameSize := s.frameSize
-                  srvTableSize := s.tableSize
-                  encTableSize := if s.tableSize ≤ Gen.c_defaultHeaderTableSize then s.tableSize else 0 }
+      else
+        let small := s.tableSize ≤ Gen.c_defaultHeaderTableSize
+        some { streamWindow := s.windowSize, maxStreams := s.maxStreams, maxFrameSize := s.frameSize
+               srvTableSize := s.tableSize
+               encTableSize := if small then s.tableSize else 0
+               encSeen := if small then s.tableSize else 0
+               enc := if small then ({} : Hpack.EncState).setMax s.tableSize else {} }
     | _ => none
   | _ => none
 
@@ -138,6 +142,11 @@ def step (st : State) (args : List String) : State × String :=
       | "read", [tag] => run (.read tag)
       | "close", [] => if c.stuck then (st, "stuck") else run .close (if c.dead then "again" else "first")
       | "cut", [] => run .cut
+      | "failwrite", [n] =>
+        if c.stuck then (st, "stuck") else
+        match parseNat? n with
+        | some n => ({ st with conn := some (Client.step c (.failwrite n)).1 }, "ok")
+        | none => (st, "bad-op")
       | "gauges", [] =>
         if c.stuck then (st, "stuck") else
         (st, s!"gauges open={c.openStreams} next={c.nextID} pending={c.pending.length} queued={c.reqQueued.length} can={canOpenStream c}")
